@@ -176,7 +176,7 @@ def gen_history(rng, n_ops, k=0, wb=False):
     # flags matter only from the second on) and a READ in between (it updates the recorded flags too); with no_open the
     # same requests run on per-request descriptors
     O_DIRECT = 0o40000
-    T = [0, O_APPEND, O_APPEND | O_NONBLOCK, O_NONBLOCK, O_APPEND | O_DIRECT, O_DIRECT]
+    T = [0, O_APPEND, O_APPEND | O_NONBLOCK, O_NONBLOCK]
     offs = [0, 3, 10, 40]
     ops.append({'op': 'create', 'p': 0, 'name': b'wfl', 'mode': 0o666, 'umask': 0, 'flags': O_RDWR, 'fuse_flags': 0, 'uid': 0, 'gid': 0})
     ci = ni; ch = nh; ni += 1; nh += 1; hflags.append(O_RDWR)
@@ -191,6 +191,13 @@ def gen_history(rng, n_ops, k=0, wb=False):
             if j == 1: ops.append({'op': 'read', 'i': ci, 'h': h, 'size': 4, 'off': 1, 'flags': base if k % 2 else fl})
     ops.append({'op': 'open', 'i': ci, 'flags': O_NONBLOCK, 'fuse_flags': 0}); nh += 1; hflags.append(O_NONBLOCK)
     ops.append({'op': 'read', 'i': ci, 'h': nh - 1, 'size': 128, 'off': 0, 'flags': O_NONBLOCK})
+    # O_DIRECT toggled through the request flags (very last: it runs into the known finding in every configuration)
+    ops.append({'op': 'open', 'i': ci, 'flags': O_RDWR, 'fuse_flags': 0}); h = nh; nh += 1; hflags.append(O_RDWR)
+    dseq = [O_RDWR | O_DIRECT, O_RDWR | O_DIRECT, O_RDWR] if k % 2 == 0 else [O_RDWR | O_DIRECT | O_APPEND, O_RDWR]
+    for j, fl in enumerate(dseq):
+        if (k + j) % 3 == 0: ops.append({'op': 'read', 'i': ci, 'h': h, 'size': 4, 'off': 0, 'flags': fl})
+        ops.append({'op': 'write', 'i': ci, 'h': h, 'off': offs[(k + j) % 4], 'data': b'dd', 'flags': fl, 'fuse_flags': 0})
+        ops.append({'op': 'getattr', 'i': ci, 'h': None})
     return ops
 
 CMP_KEYS = ('errno', 'mode', 'nlink', 'uid', 'gid', 'size', 'rdev', 'data', 'n', 'handle')
@@ -311,7 +318,8 @@ def run_check(tier, seed):
                         findings.append({'what': 'request %d (%s) differs from the same calls made directly: passthrough %s | direct %s%s' % (j, op_line(o), ra['raw'], rb['raw'], '' if ra['tree'] == rb['tree'] else ' | exported tree differs'),
                                          'input': rin, 'sig': {'kind': 'reply', 'op': o['op'], 'field': fld[0], 'pt_errno': errno_of(ra['r']), 'direct_errno': errno_of(rb['r']),
                                                                'ifh': bool(hh['cfg'].get('inode_file_handles')), 'nonroot': o.get('uid', 0) != 0,
-                                                               'writeback': bool(effective_cfg(hh['cfg']).get('writeback')), 'req_append': bool(o['op'] in ('read', 'write') and o['flags'] & O_APPEND)}})
+                                                               'writeback': bool(effective_cfg(hh['cfg']).get('writeback')), 'req_append': bool(o['op'] in ('read', 'write') and o['flags'] & O_APPEND),
+                                                               'req_direct': bool(o['op'] in ('read', 'write') and o['flags'] & 0o40000)}})
                 if not diverged:
                     wa, wb = walk_tree(hh['export']), walk_tree(hh['shadow'])
                     if wa != wb:
